@@ -384,7 +384,7 @@ func TestC05Handle(t *testing.T) {
 		// one alteration on a fresh component
 		c, dl := newConsensusForHandle(n)
 		m := proto.Clone(b.msg).(*pbv1.QBFTConsensusMsg)
-		kind := rapid.IntRange(0, 19).Draw(rt, "alteration")
+		kind := rapid.IntRange(0, 21).Draw(rt, "alteration")
 		baseInst, baseBuf := 0, 0 // what the component holds before the message under test arrives
 		level, field, how := "top", "", ""
 		parses := true
@@ -602,6 +602,58 @@ func TestC05Handle(t *testing.T) {
 				dl.expired[duty] = true
 			}
 			field = "duty"
+		case kind == 20 || kind == 21: // a signature borrowed from another part of the same message
+			if len(m.Justification) == 0 {
+				rt.Skip("no justification")
+			}
+			level, field = "just", "signature"
+			switch rapid.IntRange(0, 3).Draw(rt, "borrow") {
+			case 0: // one justification carries the signature of another part (content untouched)
+				j := rapid.IntRange(0, len(m.Justification)-1).Draw(rt, "just")
+				parts := append([]*pbv1.QBFTMsg{m.Msg}, m.Justification...)
+				k := rapid.IntRange(0, len(parts)-1).Draw(rt, "from")
+				if bytes.Equal(parts[k].Signature, m.Justification[j].Signature) {
+					rt.Skip("same signature")
+				}
+				m.Justification[j].Signature = append([]byte{}, parts[k].Signature...)
+				how = "signature_of_a_sibling"
+			case 1, 2: // a forged twin: a verified part repeated with one signed field changed, its signature kept
+				k := rapid.IntRange(0, len(m.Justification)-1).Draw(rt, "twinOf")
+				twin := proto.Clone(m.Justification[k]).(*pbv1.QBFTMsg)
+				switch rapid.IntRange(0, 3).Draw(rt, "twinField") {
+				case 0:
+					twin.PeerIdx = (twin.PeerIdx + 1 + int64(rapid.IntRange(0, n-2).Draw(rt, "twinPeer"))) % int64(n)
+				case 1:
+					twin.Type = twin.Type%5 + 1
+				case 2:
+					twin.Round++
+				default:
+					_, h := value('c')
+					if len(twin.ValueHash) > 0 {
+						twin.ValueHash = h[:]
+					} else {
+						twin.PreparedValueHash = h[:]
+					}
+					av, _ := value('c')
+					m.Values = append(m.Values, av)
+				}
+				if len(m.Justification)+1 > 2*n {
+					rt.Skip("no room for a twin within the count limit")
+				}
+				pos := k + 1
+				if rapid.Bool().Draw(rt, "twinAtEnd") {
+					pos = len(m.Justification)
+				}
+				m.Justification = append(m.Justification[:pos], append([]*pbv1.QBFTMsg{twin}, m.Justification[pos:]...)...)
+				how = "forged_twin_with_borrowed_signature"
+			default: // the outer message carries a justification's signature
+				j := rapid.IntRange(0, len(m.Justification)-1).Draw(rt, "just")
+				if bytes.Equal(m.Msg.Signature, m.Justification[j].Signature) {
+					rt.Skip("same signature")
+				}
+				m.Msg.Signature = append([]byte{}, m.Justification[j].Signature...)
+				level, how = "top", "signature_of_a_justification"
+			}
 		case kind == 16: // nil parts
 			how = rapid.SampledFrom([]string{"nil_msg", "nil_duty", "nil_justification", "nil_value", "garbage_value"}).Draw(rt, "nil")
 			switch how {
